@@ -140,8 +140,6 @@ impl GenerateConfig {
             GenerateProfile::Profile84 => DoviRpu::profile84_config(self)?,
         };
 
-        let mut list = Vec::with_capacity(self.length);
-
         let shots_length: usize = self.shots.iter().map(|s| s.duration).sum();
 
         ensure!(
@@ -151,6 +149,8 @@ impl GenerateConfig {
                 self.length, shots_length
             )
         );
+
+        let mut list = Vec::with_capacity(self.length);
 
         for shot in &self.shots {
             let end = shot.duration;
